@@ -43,6 +43,18 @@ ASSUMPTIONS.update({
     "eval_break": "eval_break: keeps the frame's base block count (PROVED in unit blocks under `for_values_present`, which is assumed here)",
     "eval_continue": "eval_continue: keeps the frame's base block count (PROVED in unit blocks)",
     "eval_match_cases": "eval_match_cases (eval.rs) is NOT verified here: assumed to push exactly one bindings block (through eval_block) and no owner entry when it succeeds",
+    "eval_assign_update": "eval_assign_update (eval.rs) is NOT verified here: assumed to leave the bindings blocks, the pending expressions and the other frames alone and to hand back what it popped when it fails (the restore contract)",
+    "eval_let": "eval_let (eval.rs) is NOT verified here: assumed to leave the bindings blocks, the pending expressions and the other frames alone and to hand back what it popped when it fails (the restore contract)",
+    "eval_int_binop": "eval_int_binop (eval.rs) is NOT verified here: assumed to leave the bindings blocks, the pending expressions and the other frames alone and to hand back what it popped when it fails (the restore contract)",
+    "eval_float_binop": "eval_float_binop (eval.rs) is NOT verified here: assumed to leave the bindings blocks, the pending expressions and the other frames alone and to hand back what it popped when it fails (the restore contract)",
+    "eval_string_concat": "eval_string_concat (eval.rs) is NOT verified here: assumed to leave the bindings blocks, the pending expressions and the other frames alone and to hand back what it popped when it fails (the restore contract)",
+    "eval_namespace_access": "eval_namespace_access (eval.rs) is NOT verified here: assumed to leave the bindings blocks, the pending expressions and the other frames alone and to hand back what it popped when it fails (the restore contract)",
+    "eval_struct_value": "eval_struct_value (eval.rs) is NOT verified here: assumed to leave the bindings blocks, the pending expressions and the other frames alone and to hand back what it popped when it fails (the restore contract)",
+    "eval_call": "eval_call (eval.rs) is NOT verified here: assumed to leave the bindings blocks, the pending expressions and the other frames alone and to hand back what it popped when it fails (the restore contract)",
+    "eval_method_call": "eval_method_call (eval.rs) is NOT verified here: assumed to leave the bindings blocks, the pending expressions and the other frames alone and to hand back what it popped when it fails (the restore contract)",
+    "push_back_mut": "rpds::Vector::push_back_mut", "insert_mut": "rpds::HashTrieMap::insert_mut", "no_value": "Type::no_value()", "from_value": "Type::from_value inspects the value only",
+    "vrev_cloned": "`xs.iter().rev().cloned().collect()` is the reversed copy", "check_string": "check_string (eval.rs; PROVED in unit restore): on failure it returns exactly the saved_values it was given",
+    "Session": "opaque", "most_similar_var": "inspects env only", "new_string": "Value::new(Value_::String(s))", "new_float": "Value::new(Value_::Float(f))",
     "done_subexpressions": "-",
     "rv_len": "rpds::Vector::len", "rv_get": "rpds::Vector index",
     "has": "Bindings::has inspects the bindings only", "set_existing": "Bindings::set_existing (under contract elsewhere): updates bindings only; requires the variable to be bound in this frame (else unreachable!())",
@@ -53,10 +65,12 @@ ASSUMPTIONS.update({
 })
 LEMMAS = {}
 UNVERIFIED = {
-    "C06": ["the arms of eval_expr other than Match/If/While/ForIn/Try/Return/Break/Continue (they neither push nor pop bindings blocks in the source; not under contract)",
+    "C06": ["the FunLiteral arm of eval_expr (builds a closure value; it neither pushes nor pops bindings blocks in the source) is the only arm not under contract",
+            "the step functions behind the arms that are stubs here (eval_let, eval_assign_update, eval_int_binop, eval_float_binop, eval_string_concat, eval_namespace_access, eval_struct_value, eval_call, eval_method_call): assumed not to touch the bindings-block count or the pending expressions",
             "eval_match_cases and the operand-count / loop-index preconditions of the arms (evaluator invariants established by earlier steps) are assumed; eval_break / eval_continue / eval_block are proved in unit blocks",
             "function frames: a frame is created with one bindings block (Bindings::new_with) and dropped whole when the call returns"],
-    "C07": ["eval_expr's dispatch (which step function runs for which expression state, and that the state handed back to restore_stack_frame re-runs the same step)",
+    "C07": ["that the expression state handed back to restore_stack_frame re-runs the same step (eval_expr mutates `expr_state` only in arms that cannot fail; not stated as a contract)",
+            "the step functions that are stubs here (see C06 list) are assumed to satisfy the restore contract; their builder sites are under contract in unit restore, their literal RestoreValues(vec![..]) sites are not",
             "continuation entries a step pushed to exprs_to_eval before failing stay there (If/Match/While arms of eval_expr): harmless for a repeated :resume, not covered",
             "eval_let, eval_struct_value, eval_match_cases, the list/tuple/dict literal arms of eval_expr, eval_namespace_access, eval_string_concat: not under contract (covered only by restore.bounded[resume_corpus])"],
     "C13": ["that `==` on Value is Value_::eq (derived PartialEq through Rc) — Value_::eq itself is under contract in unit valeq"],
@@ -228,6 +242,98 @@ impl Bindings {
 #[verifier::external_body]
 pub fn get_var(sym: &Symbol, env: &Env) -> (r: Option<Value>) { unimplemented!() }
 #[verifier::external_body]
+pub fn eval_assign_update(env: &mut Env, expr_value_is_used: bool, position: &Position, variable: &Symbol, op: AssignUpdateKind) -> (r: Result<(), (RestoreValues, EvalError)>)
+    requires old(env).stack.0@.len() >= 1,
+    ensures others_same(*old(env), *final(env)), blocks(*final(env)) == blocks(*old(env)), pend(*final(env)) == pend(*old(env)),
+        r is Err ==> restores(*old(env), *final(env), r->Err_0.0.0@),
+{ unimplemented!() }
+#[verifier::external_body]
+pub fn eval_let(env: &mut Env, expr_value_is_used: bool, destination: &LetDestination, init_value_pos: &Position, hint: &Option<TypeHint>) -> (r: Result<(), (RestoreValues, EvalError)>)
+    requires old(env).stack.0@.len() >= 1,
+    ensures others_same(*old(env), *final(env)), blocks(*final(env)) == blocks(*old(env)), pend(*final(env)) == pend(*old(env)),
+        r is Err ==> restores(*old(env), *final(env), r->Err_0.0.0@),
+{ unimplemented!() }
+#[verifier::external_body]
+pub fn eval_int_binop(env: &mut Env, expr_value_is_used: bool, position: &Position, lhs_position: &Position, rhs_position: &Position, op: &BinaryOperatorSymbol) -> (r: Result<(), (RestoreValues, EvalError)>)
+    requires old(env).stack.0@.len() >= 1,
+    ensures others_same(*old(env), *final(env)), blocks(*final(env)) == blocks(*old(env)), pend(*final(env)) == pend(*old(env)),
+        r is Err ==> restores(*old(env), *final(env), r->Err_0.0.0@),
+{ unimplemented!() }
+#[verifier::external_body]
+pub fn eval_float_binop(env: &mut Env, expr_value_is_used: bool, position: &Position, lhs_position: &Position, rhs_position: &Position, op: &BinaryOperatorSymbol) -> (r: Result<(), (RestoreValues, EvalError)>)
+    requires old(env).stack.0@.len() >= 1,
+    ensures others_same(*old(env), *final(env)), blocks(*final(env)) == blocks(*old(env)), pend(*final(env)) == pend(*old(env)),
+        r is Err ==> restores(*old(env), *final(env), r->Err_0.0.0@),
+{ unimplemented!() }
+#[verifier::external_body]
+pub fn eval_string_concat(env: &mut Env, expr_value_is_used: bool, lhs_position: &Position, rhs_position: &Position) -> (r: Result<(), (RestoreValues, EvalError)>)
+    requires old(env).stack.0@.len() >= 1,
+    ensures others_same(*old(env), *final(env)), blocks(*final(env)) == blocks(*old(env)), pend(*final(env)) == pend(*old(env)),
+        r is Err ==> restores(*old(env), *final(env), r->Err_0.0.0@),
+{ unimplemented!() }
+#[verifier::external_body]
+pub fn eval_namespace_access(env: &mut Env, expr_value_is_used: bool, symbol: &Symbol, recv_pos: &Position) -> (r: Result<(), (RestoreValues, EvalError)>)
+    requires old(env).stack.0@.len() >= 1,
+    ensures others_same(*old(env), *final(env)), blocks(*final(env)) == blocks(*old(env)), pend(*final(env)) == pend(*old(env)),
+        r is Err ==> restores(*old(env), *final(env), r->Err_0.0.0@),
+{ unimplemented!() }
+#[verifier::external_body]
+pub fn eval_struct_value(env: &mut Env, outer_expr_pos: &Position, expr_value_is_used: bool, type_symbol: TypeSymbol, field_exprs: &Vec<(Symbol, Rc<Expression>)>) -> (r: Result<(), (RestoreValues, EvalError)>)
+    requires old(env).stack.0@.len() >= 1,
+    ensures others_same(*old(env), *final(env)), blocks(*final(env)) == blocks(*old(env)), pend(*final(env)) == pend(*old(env)),
+        r is Err ==> restores(*old(env), *final(env), r->Err_0.0.0@),
+{ unimplemented!() }
+#[verifier::external_body]
+pub fn eval_call(env: &mut Env, expr_value_is_used: bool, caller_expr: Rc<Expression>, paren_args: &ParenthesizedArguments, session: &Session) -> (r: Result<Option<StackFrame>, (RestoreValues, EvalError)>)
+    requires old(env).stack.0@.len() >= 1,
+    ensures others_same(*old(env), *final(env)), blocks(*final(env)) == blocks(*old(env)), pend(*final(env)) == pend(*old(env)),
+        r is Err ==> restores(*old(env), *final(env), r->Err_0.0.0@),
+{ unimplemented!() }
+#[verifier::external_body]
+pub fn eval_method_call(env: &mut Env, expr_value_is_used: bool, caller_expr: Rc<Expression>, meth_name: &Symbol, paren_args: &ParenthesizedArguments) -> (r: Result<Option<StackFrame>, (RestoreValues, EvalError)>)
+    requires old(env).stack.0@.len() >= 1,
+    ensures others_same(*old(env), *final(env)), blocks(*final(env)) == blocks(*old(env)), pend(*final(env)) == pend(*old(env)),
+        r is Err ==> restores(*old(env), *final(env), r->Err_0.0.0@),
+{ unimplemented!() }
+#[verifier::external_body] pub struct Session { _o: u8 }
+impl<T> RpdsVector<T> {
+    #[verifier::external_body]
+    pub fn new() -> (r: Self) { unimplemented!() }
+    #[verifier::external_body]
+    pub fn push_back_mut(&mut self, x: T) { unimplemented!() }
+}
+impl<K, V> RpdsHashTrieMap<K, V> {
+    #[verifier::external_body]
+    pub fn new() -> (r: Self) { unimplemented!() }
+    #[verifier::external_body]
+    pub fn insert_mut(&mut self, k: K, v: V) { unimplemented!() }
+}
+impl Type {
+    #[verifier::external_body]
+    pub fn no_value() -> (r: Self) { unimplemented!() }
+    #[verifier::external_body]
+    pub fn from_value(v: &Value) -> (r: Self) { unimplemented!() }
+}
+/// `xs.iter().rev().cloned().collect()`
+#[verifier::external_body]
+pub fn vrev_cloned(xs: &Vec<Value>) -> (r: Vec<Value>) ensures r@ == xs@.reverse() { unimplemented!() }
+#[verifier::external_body]
+pub fn check_string<'a>(value: &'a Value, pos: &Position, saved_values: Vec<Value>, env: &Env) -> (r: Result<&'a String, (RestoreValues, EvalError)>)
+    ensures r is Err ==> r->Err_0.0.0@ == saved_values@,
+{ unimplemented!() }
+#[verifier::external_body]
+pub fn most_similar_var(name: &SymbolName, env: &Env) -> (r: Option<SymbolName>) { unimplemented!() }
+impl Clone for TypeSymbol {
+    #[verifier::external_body]
+    fn clone(&self) -> (r: Self) ensures r == *self { unimplemented!() }
+}
+impl Value {
+    #[verifier::external_body]
+    pub fn new_string(s: String) -> (r: Self) { unimplemented!() }
+    #[verifier::external_body]
+    pub fn new_float(f: &OrderedF64) -> (r: Self) { unimplemented!() }
+}
+#[verifier::external_body]
 pub fn binop_for_assert(expr: &Rc<Expression>) -> (r: Option<(Rc<Expression>, BinaryOperatorKind, Rc<Expression>)>)
     ensures r is Some <==> expr.expr_ is BinaryOperator,
 { unimplemented!() }
@@ -246,6 +352,7 @@ def restore_contract(needs, extra_requires=(), props=None, hints=None, loops=Non
 BU = "broadcast use lemma_owners_push_b;"
 # block accounting of a successful step (C06)
 ONE_BLOCK_MORE = ("pushes_one_block_no_owner", "r is Ok ==> blocks(*final(env)) == blocks(*old(env)) + 1 && owners(pend(*final(env))) == owners(pend(*old(env)))", {"C06"})
+FRAME_NEUTRAL = ("blocks_and_pending_untouched", "blocks(*final(env)) == blocks(*old(env)) && pend(*final(env)) == pend(*old(env))", {"C06"})
 BASE_KEPT = ("block_accounting_kept", "r is Ok ==> base(*final(env)) == base(*old(env))", {"C06"})
 
 
@@ -284,7 +391,7 @@ def build(tier):
     u.add_type(VAL, "Value_", rules=common.VALUE_TYPE_RULES)
     common.add_error_types(u)
     u.raw(common.FMT, kind="prelude")
-    common.add_env_full(u, real_typename=True, real_ast=("LetDestination",), no_syntaxid=True)
+    common.add_env_full(u, real_typename=True, real_ast=("LetDestination", "ExpressionWithComma", "ParenthesizedArguments", "ParenthesizedExpression", "DictKeyValue"), no_syntaxid=True)
     u.raw(common.TOP_SPEC, kind="spec")
     u.raw(common.VALUE_GLUE, kind="prelude")
     u.raw(GLUE2, kind="prelude")
@@ -295,8 +402,8 @@ def build(tier):
 
     u.add_fn(EV, "eval_if", rules=BASE_RULES, contract=restore_contract("1", extra_ensures=[ONE_BLOCK_MORE], body_prelude=BU, props={"C07", "C02", "C06"}))
     u.add_fn(EV, "eval_while_body", rules=BASE_RULES, contract=restore_contract("1", extra_requires=[("called_for_a_while_loop", "expr.expr_ is While")], extra_ensures=[BASE_KEPT], body_prelude=BU, props={"C07", "C02", "C06"}))
-    u.add_fn(EV, "eval_boolean_binop", rules=BASE_RULES + [UNREACH], contract=restore_contract("2", extra_requires=[("is_boolean_operator", "op.kind is And || op.kind is Or")]))
-    u.add_fn(EV, "eval_assert", rules=BASE_RULES, contract=restore_contract("(if recv_expr.expr_ is BinaryOperator { 3int } else { 1int })"))
+    u.add_fn(EV, "eval_boolean_binop", rules=BASE_RULES + [UNREACH], contract=restore_contract("2", extra_requires=[("is_boolean_operator", "op.kind is And || op.kind is Or")], extra_ensures=[FRAME_NEUTRAL], props={"C07", "C02", "C06"}))
+    u.add_fn(EV, "eval_assert", rules=BASE_RULES, contract=restore_contract("(if recv_expr.expr_ is BinaryOperator { 3int } else { 1int })", extra_ensures=[FRAME_NEUTRAL], props={"C07", "C02", "C06"}))
     FOR_RULES = BASE_RULES + [UNREACH,
         rw.simple("R2", r">= items\.len\(\)", ">= rv_len(items)"),
         rw.simple("R2", r"\bitems\[(\w+) as usize\]\.clone\(\)", r"rv_get(items, \1 as usize).clone()"),
@@ -305,7 +412,7 @@ def build(tier):
     u.add_fn(EV, "eval_for_in", rules=FOR_RULES, contract=restore_contract("2", extra_ensures=[BASE_KEPT], body_prelude=BU, props={"C07", "C02", "C06"},
         extra_requires=[("called_for_a_for_loop", "outer_expr.expr_ is ForIn"), ("loop_index_below_iterated_value", "*vals(*old(env))[vals(*old(env)).len() - 2].0 matches Value_::Int(i) && i >= 0")],
         loops={1: dict(invariant=[("frame", "env.stack.0@.len() >= 1, others_same(*old(env), *env), vals(*env) == vals(*old(env)).drop_last().drop_last()"), ("index_in_range", "0 <= iteree_idx < isize::MAX")], decreases="symbols@.len() - __i1")}))
-    u.add_fn(EV, "eval_assign", rules=BASE_RULES, contract=restore_contract("1",
+    u.add_fn(EV, "eval_assign", rules=BASE_RULES, contract=restore_contract("1", extra_ensures=[("blocks_and_pending_untouched", "blocks(*final(env)) == blocks(*old(env)) && pend(*final(env)) =~= pend(*old(env))", {"C06"})], props={"C07", "C02", "C06"},
         hints=[dict(anchor="return Err", where="before", name="nothing_popped_yet", text="proof { assert(env.stack.0@ =~= old(env).stack.0@); }"),
                dict(anchor="env.stack", where="before", name="popped_one_value", text="let ghost mid = *env;\nproof { assert(mid.stack.0@.drop_last() =~= old(env).stack.0@.drop_last()); }"),
                dict(anchor="if expr_value_is_used", where="before", name="only_bindings_changed", text="proof { assert(env.stack.0@.len() == mid.stack.0@.len()); assert(env.stack.0@.drop_last() =~= mid.stack.0@.drop_last()); }")]))
@@ -314,8 +421,8 @@ def build(tier):
         rw.simple("R10", r"\*field_name == symbol\.name", "vsym_eq(field_name, &symbol.name)"),
         rw.simple("local", r"format_type_error\(\"struct\", ", "format_type_error(&\"struct\", "),
     ]
-    u.add_fn(EV, "eval_dot_access", rules=DOT_RULES, contract=restore_contract("1",
-        loops={1: dict(invariant=[("frame", "env.stack.0@.len() >= 1, others_same(*old(env), *env)"),
+    u.add_fn(EV, "eval_dot_access", rules=DOT_RULES, contract=restore_contract("1", extra_ensures=[FRAME_NEUTRAL], props={"C07", "C02", "C06"},
+        loops={1: dict(invariant=[("frame", "env.stack.0@.len() >= 1, others_same(*old(env), *env), blocks(*env) == blocks(*old(env)), pend(*env) == pend(*old(env))"),
                                   ("pushed_only_when_found", "!found ==> vals(*env) == vals(*old(env)).drop_last()")],
                        decreases="fields@.len() - __i1")}))
     EQ_RULES = BASE_RULES + [UNREACH,
@@ -327,7 +434,7 @@ def build(tier):
                   ("is_equality_operator", "op.kind is Equal || op.kind is NotEqual")],
         ensures=[("equal_is_value_equality", "expr_value_is_used && op.kind is Equal ==> vals(*final(env)) =~= vals(*old(env)).drop_last().drop_last().push(bool_val(val_eq(%s, %s)))" % (L, R), {"C13"}),
                  ("not_equal_is_its_negation", "expr_value_is_used && op.kind is NotEqual ==> vals(*final(env)) =~= vals(*old(env)).drop_last().drop_last().push(bool_val(!val_eq(%s, %s)))" % (L, R), {"C13"}),
-                 ("other_frames_untouched", "others_same(*old(env), *final(env))", {"C07"})],
+                 ("other_frames_untouched", "others_same(*old(env), *final(env))", {"C07"}), FRAME_NEUTRAL],
         props={"C13", "C02"}))
     u.add_fn(EV, "done_subexpressions", impl="ExpressionState", contract=Contract(
         ensures=[("def", "r == (*self is EvaluatedSubexpressions)")], props={"C06"}))
@@ -366,6 +473,122 @@ def build(tier):
     arm("Return", "Expression_::Return(expr) => {")
     arm("Break", "Expression_::Break => {")
     arm("Continue", "Expression_::Continue => {")
+    # ---- the other arms: they neither push nor pop bindings blocks, push only non-owner entries, and hand
+    # back what they popped when they fail
+    ARM2_SIG = ("pub fn arm_%s(env: &mut Env, session: &Session, outer_expr: Rc<Expression>, expr_state: &mut ExpressionState)"
+                " -> Result<Option<StackFrame>, (RestoreValues, EvalError)>")
+    ARM2_RULES = ARM_RULES + [
+        rw.simple("R4", r"for arg in &paren_args\.arguments \{", "let mut __i1: usize = 0; while __i1 < paren_args.arguments.len() { let arg = &paren_args.arguments[__i1]; __i1 += 1;"),
+        rw.simple("R4", r"for \(_, field_expr\) in field_exprs\.iter\(\) \{", "let mut __i1: usize = 0; while __i1 < field_exprs.len() { let field_expr = &field_exprs[__i1].1; __i1 += 1;"),
+        rw.simple("local", r"Value::new\(Value_::String\(s\.clone\(\)\)\)", "Value::new_string(s.clone())"),
+        rw.simple("local", r"Value::new\(Value_::Float\(f\.into_inner\(\)\)\)", "Value::new_float(f)"),
+    ]
+    PUSH_LOOP = dict(invariant=[("frame", "env.stack.0@.len() >= 1, others_same(*old(env), *env), blocks(*env) == blocks(*old(env)), vals(*env) == vals(*old(env))"),
+                                ("only_non_owner_entries", "owners(pend(*env)) == owners(pend(*old(env)))")],
+                     body_prelude=BU)
+
+    def arm2(name, pattern, gname=None, nth=0, extra_requires=(), loops=None, is_arm=None, needs=None):
+        gname = gname or name
+        if needs:
+            extra_requires = list(extra_requires) + [("operands_on_value_stack", "*old(expr_state) is EvaluatedSubexpressions ==> vals(*old(env)).len() >= %s" % needs)]
+        lp = {}
+        for k_, (var, bound) in (loops or {}).items():
+            lp[k_] = dict(PUSH_LOOP, decreases="%s - %s" % (bound, var))
+        u.add_block_fn(EV, "eval_expr", pattern, nth=nth, sig=ARM2_SIG % gname, name="arm_%s" % gname,
+                       prefix=ARM_PREFIX, suffix=ARM_SUFFIX, rules=ARM2_RULES,
+                       contract=Contract(
+                           requires=[("stack_nonempty", "old(env).stack.0@.len() >= 1"),
+                                     ("is_this_arm", is_arm or ("outer_expr.expr_ is %s" % name)),
+                                     ("one_base_block", "%s == 1" % BW)] + list(extra_requires),
+                           ensures=[("block_accounting_kept", "r is Ok && r->Ok_0 is None ==> base(*final(env)) == 1", {"C06"}),
+                                    ("a_call_leaves_this_frame_alone", "r is Ok && r->Ok_0 is Some ==> base(*final(env)) == %s" % BW, {"C06"}),
+                                    ("failed_step_hands_back_what_it_popped", "r is Err ==> restores(*old(env), *final(env), r->Err_0.0.0@)", {"C07"}),
+                                    ("other_frames_untouched", "others_same(*old(env), *final(env))", {"C06"})],
+                           loops=lp, props={"C06", "C07"}, safety_props=set()))
+    from extract import Item, match_close, ExtractError
+
+    def binop_arm(kind_text):
+        """the `Expression_::BinaryOperator(..) => { .. }` arm of eval_expr whose pattern mentions `kind_text`"""
+        src = u.source(EV)
+        host = src.find_fn("eval_expr")
+        toks = src.toks
+        idx = [k for k, t in enumerate(toks) if host.start <= t.start < host.end]
+        for a in idx:
+            if not (toks[a].text == "Expression_" and toks[a + 1].text == ":" and toks[a + 3].text == "BinaryOperator" and toks[a + 4].text == "("):
+                continue
+            close = match_close(toks, a + 4)
+            pat = src.text[toks[a].start:toks[close].end]
+            if kind_text not in pat:
+                continue
+            j = close + 1
+            while toks[j].text != "{":
+                j += 1
+            end = match_close(toks, j)
+            return Item(src, "block", "eval_expr:BinaryOperator[%s]" % kind_text, toks[a].start, toks[end].end)
+        raise ExtractError("BinaryOperator arm mentioning %s not found in eval_expr" % kind_text)
+
+    def arm2_item(gname, item, is_arm, needs):
+        u.add_item_fn(EV, item, "arm_%s" % gname, sig=ARM2_SIG % gname, prefix=ARM_PREFIX, suffix=ARM_SUFFIX, rules=ARM2_RULES,
+                      contract=Contract(
+                          requires=[("stack_nonempty", "old(env).stack.0@.len() >= 1"), ("is_this_arm", is_arm), ("one_base_block", "%s == 1" % BW),
+                                    ("operands_on_value_stack", "*old(expr_state) is EvaluatedSubexpressions ==> vals(*old(env)).len() >= %s" % needs)],
+                          ensures=[("block_accounting_kept", "r is Ok ==> base(*final(env)) == 1", {"C06"}),
+                                   ("failed_step_hands_back_what_it_popped", "r is Err ==> restores(*old(env), *final(env), r->Err_0.0.0@)", {"C07"}),
+                                   ("other_frames_untouched", "others_same(*old(env), *final(env))", {"C06"})],
+                          props={"C06", "C07"}, safety_props=set()), qual=item.name)
+    IS_BINOP = "outer_expr.expr_ is BinaryOperator"
+    for (gname, kind_text) in (("IntOp", "BinaryOperatorKind::Modulo"), ("FloatOp", "BinaryOperatorKind::AddFloat"), ("Equality", "BinaryOperatorKind::NotEqual"),
+                               ("BoolOp", "BinaryOperatorKind::And"), ("StringConcat", "BinaryOperatorKind::StringConcat")):
+        arm2_item(gname, binop_arm(kind_text), IS_BINOP, 2)
+    arm2("Assign", "Expression_::Assign(variable, expr) => {", needs=1)
+    arm2("AssignUpdate", "Expression_::AssignUpdate(variable, op, expr) => {")
+    arm2("Let", "Expression_::Let(destination, hint, expr) => {")
+    arm2("IntLiteral", "Expression_::IntLiteral(i) => {")
+    arm2("FloatLiteral", "Expression_::FloatLiteral(f) => {")
+    arm2("StringLiteral", "Expression_::StringLiteral(s) => {")
+    arm2("Variable", "Expression_::Variable(name_sym) => {")
+    arm2("StructLiteral", "Expression_::StructLiteral(type_sym, field_exprs) => {", loops={1: ("__i1", "field_exprs@.len()")})
+    arm2("Call", "Expression_::Call(receiver, paren_args) => match expr_state {", loops={1: ("__i1", "paren_args.arguments@.len()")})
+    arm2("MethodCall", "Expression_::MethodCall(receiver_expr, meth_name, paren_args) => {", loops={1: ("__i1", "paren_args.arguments@.len()")})
+    arm2("DotAccess", "Expression_::DotAccess(recv, sym) => {", needs=1)
+    arm2("NamespaceAccess", "Expression_::NamespaceAccess(recv, sym) => {")
+    arm2("Parentheses", "Expression_::Parentheses(paren) => {")
+    arm2("Invalid", "Expression_::Invalid => {")
+    # literal arms: pop the evaluated elements (first loop), or schedule them (second loop)
+    rw.ITER_BY_VALUE_OK.add("item_exprs")
+    LIT_RULES = ARM2_RULES + [
+        rw.simple("T1", r"rpds::Vector<Value>", "RpdsVector<Value>"), rw.simple("T1", r"rpds::Vector::new\(\)", "RpdsVector::new()"),
+        rw.simple("T1", r"rpds::HashTrieMap<String, Value>", "RpdsHashTrieMap<String, Value>"), rw.simple("T1", r"rpds::HashTrieMap::new\(\)", "RpdsHashTrieMap::new()"),
+        rw.simple("R4r", r"for _ in 0\.\.items\.len\(\) \{", "let mut __i1: usize = 0; while __i1 < items.len() { __i1 += 1;"),
+        rw.simple("R4", r"for item in items\.iter\(\) \{", "let mut __i2: usize = 0; while __i2 < items.len() { let item = &items[__i2]; __i2 += 1;"),
+        rw.simple("R4", r"for kv in item_exprs \{", "let mut __i1: usize = 0; while __i1 < item_exprs.len() { let kv = &item_exprs[__i1]; __i1 += 1;"),
+        rw.simple("R4", r"for kv in item_exprs\.iter\(\) \{", "let mut __i2: usize = 0; while __i2 < item_exprs.len() { let kv = &item_exprs[__i2]; __i2 += 1;"),
+        rw.simple("R11", r"popped_values\.iter\(\)\.rev\(\)\.cloned\(\)\.collect\(\)", "vrev_cloned(&popped_values)"),
+    ]
+    POP_LOOP = dict(invariant=[("frame", "env.stack.0@.len() >= 1, others_same(*old(env), *env), blocks(*env) == blocks(*old(env)), pend(*env) == pend(*old(env))")])
+
+    def lit_arm(name, pattern, seqname, extra_pop_inv=(), per_item=1):
+        payload = "outer_expr.expr_->%s_0" % name
+        extra_pop_inv = list(extra_pop_inv) + [("operands_left", "vals(*env).len() >= %d * (%s@.len() - __i1)" % (per_item, seqname))]
+        u.add_block_fn(EV, "eval_expr", pattern, sig=ARM2_SIG % name, name="arm_%s" % name,
+                       prefix=ARM_PREFIX, suffix=ARM_SUFFIX, rules=LIT_RULES,
+                       contract=Contract(
+                           requires=[("stack_nonempty", "old(env).stack.0@.len() >= 1"), ("is_this_arm", "outer_expr.expr_ is %s" % name), ("one_base_block", "%s == 1" % BW),
+                                     ("operands_on_value_stack", "*old(expr_state) is EvaluatedSubexpressions ==> vals(*old(env)).len() >= %d * %s@.len()" % (per_item, payload))],
+                           ensures=[("block_accounting_kept", "r is Ok ==> base(*final(env)) == 1", {"C06"}),
+                                    ("failed_step_hands_back_what_it_popped", "r is Err ==> restores(*old(env), *final(env), r->Err_0.0.0@)", {"C07"}),
+                                    ("other_frames_untouched", "others_same(*old(env), *final(env))", {"C06"})],
+                           loops={1: dict(POP_LOOP, invariant=POP_LOOP["invariant"] + list(extra_pop_inv), decreases="%s@.len() - __i1" % seqname),
+                                  2: dict(PUSH_LOOP, decreases="%s@.len() - __i2" % seqname)},
+                           props={"C06", "C07"}, safety_props={"C02"}))
+    lit_arm("ListLiteral", "Expression_::ListLiteral(items) => {", "items")
+    lit_arm("TupleLiteral", "Expression_::TupleLiteral(items) => {", "items")
+    lit_arm("DictLiteral", "Expression_::DictLiteral(item_exprs) => {", "item_exprs",
+            extra_pop_inv=[("popped_values_restore_the_stack", "vals(*old(env)) =~= vals(*env) + popped_values@.reverse()")], per_item=2)
+    arm2("Assert", "Expression_::Assert(expr) => {", extra_requires=[
+        ("state_made_by_this_dispatch", "*old(expr_state) is PartiallyEvaluated ==> outer_expr.expr_->Assert_0.expr_ is BinaryOperator"),
+        ("operands_on_value_stack", "(*old(expr_state) is PartiallyEvaluated ==> vals(*old(env)).len() >= 2)"
+         " && (*old(expr_state) is EvaluatedSubexpressions ==> vals(*old(env)).len() >= (if outer_expr.expr_->Assert_0.expr_ is BinaryOperator { 3int } else { 1int }))")])
     u.add_canary_proof()
     u.raw(common.FOOTER)
     return u
